@@ -736,17 +736,31 @@ func checkLogSinks(p *core.Program, r *core.Report, ix *funcIndex, mainUnit flow
 		r.Violation("O19.6", "logging."+logVar.Name()+": initialiser", p.Pos(logVar.Pos()), "logger variable has no initialiser: its sink cannot be decided")
 	} else {
 		usesOut, usesErr := false, false
-		ast.Inspect(initExpr, func(n ast.Node) bool {
-			if e, ok := n.(ast.Expr); ok {
-				if isOsVar(lp.TypesInfo, e, "Stdout") {
-					usesOut = true
+		// the initialiser expression and the in-repo constructor functions it calls (newLogger(consoleOutput()), …)
+		seenFn := map[*types.Func]bool{}
+		var scan func(root ast.Node, info *types.Info, depth int)
+		scan = func(root ast.Node, info *types.Info, depth int) {
+			ast.Inspect(root, func(n ast.Node) bool {
+				if e, ok := n.(ast.Expr); ok {
+					if isOsVar(info, e, "Stdout") {
+						usesOut = true
+					}
+					if isOsVar(info, e, "Stderr") {
+						usesErr = true
+					}
 				}
-				if isOsVar(lp.TypesInfo, e, "Stderr") {
-					usesErr = true
+				if call, ok := n.(*ast.CallExpr); ok && depth < 4 {
+					if fn, _ := typeutil.Callee(info, call).(*types.Func); fn != nil && inRepoObj(fn) && !seenFn[fn.Origin()] {
+						seenFn[fn.Origin()] = true
+						if u, ok := ix.decls[fn.Origin()]; ok {
+							scan(u.Node, u.Pkg.TypesInfo, depth+1)
+						}
+					}
 				}
-			}
-			return true
-		})
+				return true
+			})
+		}
+		scan(initExpr, lp.TypesInfo, 0)
 		r.Check(usesErr && !usesOut, "O19.6", "logging."+logVar.Name()+": initialiser", p.Pos(initExpr.Pos()),
 			"logger is constructed over os.Stderr", fmt.Sprintf("logger initialiser references os.Stdout=%v os.Stderr=%v: log lines would mix into prove's stdout", usesOut, usesErr))
 		r.Count("logger initialiser", 1)
